@@ -78,6 +78,12 @@ def run_case(spec):
   m = gen.weighted(r, [(1, 1), (2, 1), (r.randrange(3, 15), 3), (r.randrange(15, 61), 2)])
   sig = r.choice([0.9, 0.8, 0.95, 0.6, round(r.uniform(0.01, 0.995), 4)])
   power = r.choice([0.8, 0.9, 0.5, 0.7, round(r.uniform(0.01, 0.995), 4)])
+  if spec['idx'] % 25 == 7:
+    # levels next to the ends of (0, 1) are inside the documented domain
+    if r.random() < 0.5:
+      sig = r.choice([1e-9, 1e-12, 1e-15, 1 - 1e-9, 1 - 1e-12])
+    else:
+      power = r.choice([1e-9, 1e-12, 1e-15, 1 - 1e-9, 1 - 1e-12])
   flevel = r.choice([0.9, 0.95, 0.99, round(r.uniform(0.9, 0.9995), 5)])
   rho_target = r.choice([0.3, 0.6, 0.8, 0.9, 0.99, 0.999, 0.9999])
   sign = r.choice([1, 1, 1, -1])
@@ -187,7 +193,11 @@ def run_case(spec):
         mech = 'summary-estimate-not-finite'
       add('estimate', mech, 'test period carries total lift %.12g but TBR.summary estimate=%r' % (ri, est))
     want_low = float(stats.t.ppf(power, n - 2)) * scale_tbr
-    if not (abs(low - want_low) <= (1e-6 + cond_tol) * abs(want_low) + tol_e):
+    # TBR.summary takes a level and forms 1 - level itself: for levels within 1e-6 of 0 or 1 that subtraction limits the
+    # accuracy of the reported quantile (on the unchanged code as well), so the bound is only judged away from the ends;
+    # the identity above uses the quantiles directly and is judged everywhere
+    extreme = min(sig, 1 - sig) < 1e-6
+    if not extreme and not (abs(low - want_low) <= (1e-6 + cond_tol) * abs(want_low) + tol_e):
       add('lower', 'summary-lower', 'one-sided lower bound at level sig_level is %.12g, t_pow x scale=%.12g' % (low, want_low))
   # ---- metamorphic relations on the design side
   counters['metamorphic_checked'] += 1
